@@ -118,8 +118,13 @@ def cases(tier, rng, dist):
             idx = [i for i, gi in enumerate(g) if gi == k]
             if len(idx) == 2 and y[idx[0]] == y[idx[1]]:
                 y[idx[1]] += 1
+        # dtypes as the caller holds them: x is integer-valued (dose levels, counts) and may be an integer array while y has
+        # non-integer values, or the other way round; the statistic is the correlation of the values as given
+        xdt, ydt = rng.choice([("float", "float"), ("float", "float"), ("int", "float"), ("int", "float"), ("float", "int")])
+        if xdt == "int" and rng.random() < 0.8:
+            y = [v + Fraction(rng.choice([1, 1, 3]), rng.choice([2, 4])) for v in y]
         yield {"f": "simcorr", "x": [str(v) for v in x], "y": [str(v) for v in y], "g": g, "alt": rng.choice(ALTS), "reps": rng.randint(1, 4), "plus1": rng.random() < 0.5,
-               "mode": mode(), "aseed": rng.randint(0, 10**9)}
+               "mode": mode(), "aseed": rng.randint(0, 10**9), "xdt": xdt, "ydt": ydt}
     for _ in range(N // 2):
         ng, nc = rng.randint(1, 3), rng.choice([1, 2, 2, 2, 3])
         per = rng.randint(1, 2)
@@ -347,7 +352,7 @@ def run(c):
             out[tag] = {"r": ["ok", float(v[0]), float(v[1]), [float(z) for z in v[2]] if keep else None], "log": list(t.log), "unmodified": unmod, "global_same": gsame, "keep": keep, "rec": rec}
         return out
     if f == "simcorr":
-        x = arr([F(v) for v in c["x"]]); y = arr([F(v) for v in c["y"]]); g = np.array(c["g"])
+        x = arr([F(v) for v in c["x"]], c.get("xdt", "float")); y = arr([F(v) for v in c["y"]], c.get("ydt", "float")); g = np.array(c["g"])
         t = Tape(None, chooser_of(c))
         r, unmod, gsame = call_test(stratified.sim_corr, (x, y, g), dict(reps=c["reps"], alternative=c["alt"], seed=t, plus1=c["plus1"]), (x, y, g))
         if r[0] != "ok":
